@@ -1,15 +1,340 @@
 package main
 
+import (
+	"fmt"
+	"go/token"
+	"go/types"
+	"sort"
+	"strings"
+
+	"golang.org/x/tools/go/ssa"
+)
+
 func init() {
 	register(&propDef{
 		ID:    "C14",
 		Title: "Serving and reloading concurrently is race free",
 		Run:   runC14,
-		Explanation: "Structural necessary conditions of race freedom, decided on the SSA form of every function of the module: (lockset) each tabled shared field is only touched with its mutex held; (order) the lock-acquisition order graph is acyclic; (block) no unbounded channel operation while the reload lock is held; (ctxpool) pooled CDB contexts are reset before reuse. Not decided: race freedom of state outside the table, liveness; no schedule is ever executed.",
+		Explanation: "Structural necessary conditions of race freedom, decided on the SSA form of every function of the module: (lockset) each tabled shared field is only touched with its mutex held; (order) the lock-acquisition order graph (locks held locally or possibly held by a caller, goroutine starts carry none) is acyclic; (block) no blocking channel operation in packages dnsserver/db while the reload lock may be held, except the timeout-bounded select of (*db.DB).Reload; (ctxpool) pooled CDB contexts are Reset before they go back to the pool. Not decided: race freedom of state outside the table, liveness; no schedule is ever executed.",
 	})
 }
 
 func runC14(c *Ctx) {
 	c.locksetRows("C14.lockset", func(lockRow) bool { return true })
 	c.Floor("C14.lockset", 30)
+	c14OrderAndBlock(c)
+	c14CtxPool(c)
+}
+
+// lockClassOf names the class of a mutex from the receiver of a Lock call:
+// "pkg.Type.field" for struct fields, "local:fn:name" for local mutexes.
+func lockClassOf(recv ssa.Value, fn *ssa.Function) string {
+	switch x := recv.(type) {
+	case *ssa.FieldAddr:
+		t := x.X.Type()
+		if p, ok := t.Underlying().(*types.Pointer); ok {
+			t = p.Elem()
+		}
+		name := t.String()
+		if n, ok := t.(*types.Named); ok {
+			name = n.Obj().Pkg().Name() + "." + n.Obj().Name()
+		}
+		return name + "." + fieldName(x.X.Type(), x.Field)
+	case *ssa.Alloc:
+		root := fn
+		for root.Parent() != nil {
+			root = root.Parent()
+		}
+		return "local:" + fnName(root) + ":" + x.Comment
+	case *ssa.FreeVar:
+		root := fn
+		for root.Parent() != nil {
+			root = root.Parent()
+		}
+		return "local:" + fnName(root) + ":" + x.Name()
+	case *ssa.UnOp:
+		if x.Op == token.MUL {
+			// mutex held by pointer (RDB.writeMutex *sync.Mutex)
+			return lockClassOf(x.X, fn)
+		}
+	case *ssa.Global:
+		return "global:" + x.Pkg.Pkg.Name() + "." + x.Name()
+	}
+	return ""
+}
+
+func c14OrderAndBlock(c *Ctx) {
+	orule, brule := "C14.order", "C14.block"
+	c.Rule(orule, "lock-order graph over all module functions: an edge A→B when lock class B is acquired while A is definitely held in the function or possibly held by some caller (call graph, not across go statements); the graph must be acyclic")
+	c.Rule(brule, "in packages dnsserver and db no channel send, receive or blocking select executes while FBDNSDB.reloadMu is (possibly) held, except in the allow-listed timeout-bounded select")
+	fns := c.OurFuncs()
+	cg := c.CallGraph()
+
+	// classes definitely held at an instruction, from the must-lockset
+	classesAt := func(fn *ssa.Function, in ssa.Instruction) map[string]bool {
+		out := map[string]bool{}
+		ls := computeLockset(fn)
+		st := ls.At(in)
+		if len(st) == 0 {
+			return out
+		}
+		// map paths back to classes via the lock calls of this function
+		for _, b := range fn.Blocks {
+			for _, x := range b.Instrs {
+				if call, ok := x.(*ssa.Call); ok {
+					if k, recv := lockOp(call.Common()); k == "lock" || k == "rlock" {
+						if p := pathOf(recv); p != "" && st[p] != modeNone {
+							if cl := lockClassOf(recv, fn); cl != "" {
+								out[cl] = true
+							}
+						}
+					}
+				}
+			}
+		}
+		return out
+	}
+	// may-held on entry, fixpoint
+	entry := map[*ssa.Function]map[string]bool{}
+	for _, fn := range fns {
+		entry[fn] = map[string]bool{}
+	}
+	inSet := map[*ssa.Function]bool{}
+	for _, fn := range fns {
+		inSet[fn] = true
+	}
+	add := func(fn *ssa.Function, cl string) bool {
+		if !inSet[fn] || entry[fn][cl] {
+			return false
+		}
+		entry[fn][cl] = true
+		return true
+	}
+	for changed, iter := true, 0; changed && iter < 50; iter++ {
+		changed = false
+		for _, fn := range fns {
+			node := cg.Nodes[fn]
+			if node != nil {
+				for _, e := range node.Out {
+					if _, isGo := e.Site.(*ssa.Go); isGo {
+						continue
+					}
+					callee := e.Callee.Func
+					if !inSet[callee] {
+						continue
+					}
+					held := classesAt(fn, e.Site)
+					for cl := range entry[fn] {
+						held[cl] = true
+					}
+					for cl := range held {
+						if add(callee, cl) {
+							changed = true
+						}
+					}
+				}
+			}
+			// closures created here and not started as goroutines run with the creator's locks
+			for _, b := range fn.Blocks {
+				for _, x := range b.Instrs {
+					mc, ok := x.(*ssa.MakeClosure)
+					if !ok {
+						continue
+					}
+					isGo := false
+					if refs := mc.Referrers(); refs != nil {
+						for _, r := range *refs {
+							if g, ok := r.(*ssa.Go); ok && g.Call.Value == mc {
+								isGo = true
+							}
+						}
+					}
+					if isGo {
+						continue
+					}
+					held := classesAt(fn, mc)
+					for cl := range entry[fn] {
+						held[cl] = true
+					}
+					for cl := range held {
+						if add(mc.Fn.(*ssa.Function), cl) {
+							changed = true
+						}
+					}
+				}
+			}
+		}
+	}
+	// edges
+	type edge struct{ a, b string }
+	edges := map[edge]string{}
+	nacq := 0
+	for _, fn := range fns {
+		for _, b := range fn.Blocks {
+			for _, x := range b.Instrs {
+				call, ok := x.(*ssa.Call)
+				if !ok {
+					continue
+				}
+				k, recv := lockOp(call.Common())
+				if k != "lock" && k != "rlock" {
+					continue
+				}
+				cl := lockClassOf(recv, fn)
+				if cl == "" {
+					c.Undecided(orule, fnName(fn)+"|unnamed-mutex", call.Pos(), "cannot name the mutex being locked")
+					continue
+				}
+				nacq++
+				held := classesAt(fn, call)
+				for h := range entry[fn] {
+					held[h] = true
+				}
+				for h := range held {
+					if h == cl {
+						continue // same class: different instances (e.g. two generations), or re-entrant read lock; not an order edge
+					}
+					e := edge{h, cl}
+					if _, ok := edges[e]; !ok {
+						edges[e] = fmt.Sprintf("%s at %s", fnName(fn), c.relPos(call.Pos()))
+					}
+				}
+			}
+		}
+	}
+	// cycle detection
+	adj := map[string][]string{}
+	for e := range edges {
+		adj[e.a] = append(adj[e.a], e.b)
+	}
+	for k := range adj {
+		sort.Strings(adj[k])
+	}
+	var cyc []string
+	state := map[string]int{}
+	var stack []string
+	var dfs func(n string) bool
+	dfs = func(n string) bool {
+		state[n] = 1
+		stack = append(stack, n)
+		for _, m := range adj[n] {
+			if state[m] == 1 {
+				i := 0
+				for j, s := range stack {
+					if s == m {
+						i = j
+					}
+				}
+				cyc = append(append([]string{}, stack[i:]...), m)
+				return true
+			}
+			if state[m] == 0 && dfs(m) {
+				return true
+			}
+		}
+		stack = stack[:len(stack)-1]
+		state[n] = 2
+		return false
+	}
+	var nodes []string
+	for n := range adj {
+		nodes = append(nodes, n)
+	}
+	sort.Strings(nodes)
+	for _, n := range nodes {
+		if state[n] == 0 && dfs(n) {
+			break
+		}
+	}
+	var es []string
+	for e, where := range edges {
+		es = append(es, fmt.Sprintf("%s → %s (%s)", e.a, e.b, where))
+	}
+	sort.Strings(es)
+	detail := fmt.Sprintf("%d lock acquisitions, %d order edges: %s", nacq, len(edges), strings.Join(es, "; "))
+	if cyc != nil {
+		detail = "cycle: " + strings.Join(cyc, " → ") + "; " + detail
+	}
+	c.Check(orule, "lock-order-graph|acyclic", cyc == nil, token.NoPos, detail)
+	for e, where := range edges {
+		c.add(orule, "edge|"+e.a+"→"+e.b, Discharged, token.NoPos, true, "acquired while holding, first seen in "+where)
+	}
+	if nacq < 20 {
+		c.Undecided(orule, "floor", token.NoPos, fmt.Sprintf("only %d lock acquisitions found", nacq))
+	}
+
+	// C14.block
+	allowBlock := map[string]string{
+		"(*db.DB).Reload": "the select is bounded by the reload timeout context",
+	}
+	reloadMu := "dnsserver.FBDNSDB.reloadMu"
+	nb := 0
+	for _, fn := range c.OurFuncs("dnsserver", "db") {
+		for _, b := range fn.Blocks {
+			for _, x := range b.Instrs {
+				var kind string
+				switch y := x.(type) {
+				case *ssa.Send:
+					kind = "send"
+				case *ssa.UnOp:
+					if y.Op == token.ARROW {
+						kind = "receive"
+					}
+				case *ssa.Select:
+					if y.Blocking {
+						kind = "select"
+					}
+				}
+				if kind == "" {
+					continue
+				}
+				nb++
+				held := classesAt(fn, x)[reloadMu] || entry[fn][reloadMu]
+				construct := fmt.Sprintf("%s|%s", fnName(fn), kind)
+				if !held {
+					c.add(brule, construct, Discharged, x.Pos(), true, "reload lock not held here")
+					continue
+				}
+				if why, ok := allowBlock[fnName(fn)]; ok && kind == "select" {
+					c.add(brule, construct, Discharged, x.Pos(), true, "allow-listed: "+why)
+					continue
+				}
+				c.Check(brule, construct, false, x.Pos(), "blocking channel operation while reloadMu may be held: every query waits in AcquireReader until it completes")
+			}
+		}
+	}
+	if nb < 5 {
+		c.Undecided(brule, "floor", token.NoPos, fmt.Sprintf("only %d channel operations found in dnsserver/db", nb))
+	}
+}
+
+func c14CtxPool(c *Ctx) {
+	rule := "C14.ctxpool"
+	c.Rule(rule, "every (*sync.Pool).Put into cdbdriver.contextPool is dominated by a Reset() of the same context value; Get results are handed out as they are")
+	fPool := c.Field("db", "cdbdriver", "contextPool")
+	n := 0
+	for _, fn := range c.OurFuncs("db") {
+		for _, ci := range callInstrs(fn) {
+			cc := ci.Common()
+			f := calleeOf(cc)
+			if f == nil || f.Pkg() == nil || f.Pkg().Path() != "sync" || funcShort(f) != "Pool.Put" || len(cc.Args) < 2 {
+				continue
+			}
+			fa, ok := cc.Args[0].(*ssa.FieldAddr)
+			if !ok || fieldOf(fa) != fPool {
+				continue
+			}
+			n++
+			c.Examined(fn)
+			reset := false
+			for _, x := range callInstrs(fn) {
+				xc := x.Common()
+				if xc.IsInvoke() && xc.Method.Name() == "Reset" && instrDominates(x, ci) && sameSources(unwrap(xc.Value), unwrap(cc.Args[1])) {
+					reset = true
+				}
+			}
+			c.Check(rule, fnName(fn)+"|put-after-reset", reset, ci.Pos(), "a context returned to the pool is reset first, so the next query starts from a clean state")
+		}
+	}
+	c.Floor(rule, 1)
 }
